@@ -19,10 +19,10 @@
 
    (B = byte string as array of ints, R = [anch, lit, wild, repl].)
 
-   A result outside the allowed set is counted in `bad` (with a few examples) under its class: the name of the
-   known deviation class if the as-built semantics (AllDevs) explains it, "unexplained"
-   otherwise; the orchestrator turns the classes into finding keys.  Queries do not change the
-   state, so checking simply continues.                                                     *)
+   A result outside the allowed set is counted in `bad` (with a few examples) under its
+   class: the name of the known deviation class if the as-built semantics (AllDevs, or a part
+   of it) explains it, "unexplained" otherwise; the orchestrator turns the classes into
+   finding keys.  Queries do not change the state, so checking simply continues.            *)
 EXTENDS Paths, Json, SequencesExt
 
 CONSTANTS TraceFile,   \* ndjson file recorded by the worker
@@ -43,8 +43,11 @@ DevClass(s, p) ==
     ELSE IF \E k \in DOMAIN s.tab : HasPrefix(p, k) /\ ~Under(p, k) THEN "prefix-without-boundary"
     ELSE "inner-occurrence-rewritten"
 
-\* class of a result o that is NOT in the allowed set
-ClassBad(s, p, o) == IF o \in Outputs(s, p, AllDevs) THEN DevClass(s, p) ELSE "unexplained"
+\* class of a result o that is NOT in the allowed set: explained by the as-built semantics (or by
+\* a part of it - a tree in which only some of the deviations were repaired) or not at all
+ClassBad(s, p, o) ==
+    IF o \in Outputs(s, p, AllDevs) \/ \E D \in SUBSET AllDevs : o \in Outputs(s, p, D)
+    THEN DevClass(s, p) ELSE "unexplained"
 
 Classes == {"panic", "length", "environment", "privacy-flag-off-by-default", "unexplained", "empty-prefix",
             "root-prefix", "home-exposed", "prefix-without-boundary", "inner-occurrence-rewritten"}
